@@ -346,8 +346,10 @@ impl Property for C18Prop {
                             violation("successor-not-accepted", "NodeInfo::update_transports", format!("{name} of node {i}: record #{n} with timestamp {} -> {res:?}", show(&info.timestamp)));
                         }
                         if !accepted && !newer_than_held && strictly_newer {
-                            // Cannot happen if `>` on HybridTimestamp is transitive; keep it visible.
-                            violation("successor-not-accepted", "timestamp order not transitive", format!("{name} of node {i}: record #{n} {}", show(&info.timestamp)));
+                            // The record is newer than the publisher's previous one but not newer
+                            // than what this observer holds: the observer accepted a record that
+                            // the publisher's own book (same rule, same order) did not.
+                            violation("successor-not-accepted", "observer holds a record newer than the publisher's own book", format!("{name} of node {i}: record #{n} {}", show(&info.timestamp)));
                         }
                     }
                     nodes[i].published += 1;
@@ -373,5 +375,6 @@ impl Property for C18Prop {
             }
         }
         ev!("end: chain at {}, clock at {}, max publishes per node {max_publishes}", show(&chain), rel(wall_us()));
+        ctx::add_steps(steps as u64);
     }
 }
